@@ -444,6 +444,7 @@ type FuncContract struct {
 	Rely     []Clause // two-state relation every interference step of other goroutines satisfies
 	Shared   []string // ghost fields other goroutines may change (havocked at yield points under Rely)
 	Uses     []string // lemmas assumed in this function's VC (each discharged on its own)
+	Keeps    []Clause // locations abstracted calls are assumed not to write
 	CbInv    []Clause // `cbinvariant [label] expr`: invariant of the state over the calls a library makes to a callback (pragma callback)
 	Forbid   []Clause // `forbid [label] call <name>`: the function and its closures contain no such call
 	Key      string
@@ -506,7 +507,7 @@ var keywords = map[string]bool{
 	"func": true, "stub": true, "property": true, "returns": true, "requires": true, "ensures": true,
 	"modifies": true, "inline": true, "trusted": true, "ghost": true, "loop": true, "invariant": true,
 	"decreases": true, "at": true, "lemma": true, "spec": true, "assume": true, "pragma": true, "axiom": true,
-	"before": true, "ghostfield": true, "uses": true, "forbid": true, "cbinvariant": true, "rely": true, "shared": true, "guarded": true, "atomic": true,
+	"before": true, "ghostfield": true, "uses": true, "keeps": true, "forbid": true, "cbinvariant": true, "rely": true, "shared": true, "guarded": true, "atomic": true,
 }
 
 func firstWord(s string) (string, string) {
@@ -776,6 +777,16 @@ func (sp *Specs) ParseSpecFile(path string) error {
 						cur.Modifies = append(cur.Modifies, c)
 					}
 				}
+			case "keeps":
+				// keeps x.f, *p: assumption that the calls abstracted under `pragma unknowncalls havoc` leave these alone
+				for _, part := range splitTop(rest, ',') {
+					c, err := parseClause(part, l.no, path)
+					if err != nil {
+						return err
+					}
+					cur.Keeps = append(cur.Keeps, c)
+				}
+				sp.Scan = append(sp.Scan, fmt.Sprintf("assumed: abstracted calls in %s do not write %s (%s:%d)", cur.Key, rest, shortPath(path), l.no))
 			case "atomic":
 				for _, u := range strings.Split(rest, ",") {
 					cur.Atomic = append(cur.Atomic, strings.TrimSpace(u))
